@@ -61,7 +61,15 @@ GenTerm(seed, p) ==
     [] c = 10 -> GenSyl(seed, C(p, 1))
     [] c = 11 -> GenStruct(seed, C(p, 1))
     [] OTHER  -> SB
-GenOpt(seed, p) == Opt(<<GenSeg(seed, C(p, 1))>> \o (IF Chance(seed, C(p, 2), 1, 4) THEN <<GenSeg(seed, C(p, 3))>> ELSE <<>>),
+\* what an optional may hold: segments mostly, but the parser also takes boundaries, syllables and sets (zero-width content matters: `($,0)`)
+GenOptItem(seed, p) ==
+  LET c == Pick(seed, p, 12) IN
+  CASE c <= 8 -> GenSeg(seed, C(p, 1))
+    [] c = 9  -> SB
+    [] c = 10 -> WB
+    [] c = 11 -> GenSyl(seed, C(p, 1))
+    [] OTHER  -> GenSet(seed, C(p, 1))
+GenOpt(seed, p) == Opt(<<GenOptItem(seed, C(p, 1))>> \o (IF Chance(seed, C(p, 2), 1, 4) THEN <<GenSeg(seed, C(p, 3))>> ELSE <<>>),
                        Pick(seed, C(p, 4), 2) - 1, <<0, 1, 2, 3>>[Pick(seed, C(p, 5), 4)])
 FixOpt(o) == IF o.id > 0 /\ o.hi < o.id THEN [o EXCEPT !.hi = o.id + 1] ELSE o
 GenEnvEl(seed, p) ==
@@ -274,4 +282,27 @@ GenShorthand(seed) ==
             b == IF Chance(seed, 6, 1, 2) THEN Grp(Pick(seed, 7, 9)) ELSE Mx(GenSegMods(seed, 7))
             ctx == IF Chance(seed, 8, 1, 2) THEN <<SimpleEnv(seed, 9)>> ELSE <<>>
         IN [kind |-> "metathesis", short |-> <<Rule(<<a, b>>, <<Met>>, ctx, <<>>)>>, parts |-> <<>>, long |-> <<MetAsVars(a, b, ctx, <<>>)>>]
+
+(* ---------------------------------------------------------------------------------------------------- *)
+(* C03 over the FULL inventory: rules of the basic fragment F0 (input one segment element, output one IPA *)
+(* segment or one feature matrix, context / exception / environment set over segment elements, sets,     *)
+(* # and $) with literals drawn from all cardinals and matrices over all 26 features.                     *)
+F0Lit(seed, p) == Ipa(Pick(seed, p, Len(Base)))
+F0Mx(seed, p) == Mx([i \in 1..Pick(seed, p, 3) |-> <<"f", Pick(seed, C(p, i), NFeat), Chance(seed, C(p, i + 4), 1, 2)>>])
+F0Seg(seed, p) == LET c == Pick(seed, p, 8) IN
+                  CASE c <= 3 -> F0Lit(seed, C(p, 1)) [] c <= 5 -> F0Mx(seed, C(p, 1)) [] c = 6 -> Mx(<<>>) [] OTHER -> Grp(Pick(seed, C(p, 1), 9))
+F0El(seed, p) == IF Chance(seed, p, 1, 5) THEN SetOf([i \in 1..(1 + Pick(seed, C(p, 1), 2)) |-> F0Seg(seed, C(p, 1 + i))]) ELSE F0Seg(seed, C(p, 5))
+F0SideEl(seed, p) == IF Chance(seed, p, 1, 6) THEN SB ELSE F0El(seed, C(p, 1))
+F0Side(seed, p, outer) ==
+  LET n == Pick(seed, p, 4) - 1                       \* 0..3 -> at most 2 elements
+      els == [i \in 1..(IF n > 2 THEN 1 ELSE n) |-> F0SideEl(seed, C(p, i))]
+      wb == Chance(seed, C(p, 6), 1, 6)
+  IN IF ~wb THEN els ELSE IF outer = "l" THEN <<WB>> \o els ELSE Append(els, WB)
+F0Env(seed, p) == LET e == Env(F0Side(seed, C(p, 1), "l"), F0Side(seed, C(p, 2), "r")) IN IF e = EmptyEnv THEN Env(<<F0El(seed, C(p, 3))>>, <<>>) ELSE e
+GenF0(seed) ==
+  LET c == Pick(seed, 3, 6)
+      ctx == IF c = 1 THEN <<>> ELSE IF c = 6 THEN <<F0Env(seed, 4), F0Env(seed, 5)>> ELSE <<F0Env(seed, 4)>>
+      exc == IF Chance(seed, 6, 1, 3) THEN <<F0Env(seed, 7)>> ELSE <<>>
+      out == IF Chance(seed, 8, 1, 2) THEN F0Lit(seed, 9) ELSE F0Mx(seed, 9)
+  IN Rule(<<F0El(seed, 10)>>, <<out>>, ctx, exc)
 =============================================================================
